@@ -295,8 +295,16 @@ func runC02(res *result) {
 							if fl.Req == "optional" || rt.K == "struct" || rt.K == "union" || rt.K == "exception" {
 								continue
 							}
-							if _, ok := rr.Tree.F[strconv.Itoa(fl.ID)]; !ok {
+							id := strconv.Itoa(fl.ID)
+							if _, ok := rr.Tree.F[id]; !ok {
 								bad = fmt.Sprintf("%s field %d (%s) is not written when unset", fl.Req, fl.ID, fl.Type)
+							} else if fl.Default != nil {
+								// a freshly constructed value carries the declared default, exactly
+								stf, sff := r.FindStruct(plan.Ops[i].Type)
+								want := r.ExpectStructTree(stf, sff, &idl.V{K: "struct", F: map[string]*idl.V{id: r.LitToV(rt, fl.Default)}})
+								if w, ok := want.F[id]; ok && idl.CanonW(w) != idl.CanonW(rr.Tree.F[id]) {
+									bad = fmt.Sprintf("%s field %d (%s) of a freshly constructed value is written as %s, the declared default is %s", fl.Req, fl.ID, fl.Type, idl.CanonW(rr.Tree.F[id]), idl.CanonW(w))
+								}
 							}
 						}
 					}
